@@ -6,6 +6,7 @@ from contextlib import contextmanager
 from typing import TYPE_CHECKING
 
 from .checkpoint_int import SnapshottingInt
+from .grammar.rule import SILENT_ATOMIC
 from .grammar.rule import Rule
 from .stack import Stack
 
@@ -79,7 +80,10 @@ class ParserState:
 
         assert self.parser
 
-        if skip := self.parser.rules.get("SKIP"):
+        skip = self.parser.rules.get("SKIP")
+        # Only the optimizer's fused rule is `_@`; a grammar can't spell that, so
+        # a user rule that happens to be called SKIP is an ordinary rule.
+        if skip is not None and skip.modifier == SILENT_ATOMIC:
             # Implicit rules never contribute to failure reports, fused or not.
             with self.suppress_failures():
                 return skip.parse(self, pairs)
